@@ -1,5 +1,4 @@
-import MetadorModel.Gen.OverlayScan
-import MetadorModel.Proofs.OverlayPy
+import MetadorModel.Bridge.OverlayScanChildren
 import MetadorModel.Proofs.OverlayWriteLook
 /-!
 # Bridge: the translated child resolution of `overlay.py` is the model's `scan / child / look`
@@ -15,243 +14,24 @@ re-checked on every run; they state that what the source says *now* computes the
   `Overlay.child` for that child path (the loop over the container files, newest first, with the
   two dictionaries as state, is a fold; per key it is the recursion `Overlay.scan`);
 * `gen_get_child`, `gen_node_seq_loop`, `gen_find` — `_find` on an absolute path is `Overlay.look`
-  (`found c _ ↦ c`, `part ↦ None`, `insideValue ↦ ValueError`).
+  (`found c _ ↦ c`, `part ↦ None`, `insideValue ↦ ValueError`); `gen_find_rel` — on a relative path,
+  called on a group node, it is `Overlay.lookFrom` started there; `gen_find_inv`, `gen_find_visible` —
+  the same under the record invariant `Inv` of C01.
+
+The proofs are split over three modules so that a broken obligation names the function group that
+changed: `Bridge/OverlayScanPreds.lean` (constants, predicates, `_guard_open`, `_get_child_raw`),
+`Bridge/OverlayScanChildren.lean` (`_children`), this file (`_get_child`, `_node_seq`, `_find`).
 
 Hypotheses: every container satisfies `WF` (what every HDF5 file satisfies: entries have parents,
 parents are groups, the root is a group — part of the record invariant `Inv`), and the record is
 not empty (it is open).
 -/
+set_option linter.unusedSimpArgs false
 namespace MetadorModel.Bridge.OverlayScan
 open MetadorModel MetadorModel.Tree MetadorModel.Overlay MetadorModel.OverlayPy
 open MetadorModel.Gen.OverlayScan
 
 variable {V : Type}
-
-/-! ## constants and predicates -/
-
-theorem gen_SUBST_KEY : SUBST_KEY = substKey := rfl
-
-/-- `_node_is_virtual`: a group object without the SUBST attribute -/
-theorem gen_node_is_virtual_obj (o : PyObj V) :
-    _node_is_virtual o = .ok (match o with | .group _ _ s _ => !s | _ => false) := by
-  cases o <;>
-    simp [_node_is_virtual, pyIsInstance, pyGetAttrs, pyIn, gen_SUBST_KEY, bind, Except.bind, pure, Except.pure]
-
-/-- `_node_is_virtual` on a raw node is the model's `RKind.isVirtual` -/
-theorem gen_node_is_virtual (f : Cont V) (p : Path) (n : RNode V) :
-    _node_is_virtual (PyObj.ofNode f p n) = .ok n.kind.isVirtual := by
-  rw [gen_node_is_virtual_obj]
-  cases h : n.kind <;> simp [PyObj.ofNode, h, RKind.isVirtual]
-
-/-- `_node_is_del_mark`: a dataset whose content is the marker, or the marker value itself -/
-theorem gen_node_is_del_mark_obj (o : PyObj V) :
-    _node_is_del_mark o = .ok (match o with | .dataset none _ => true | .value none => true | _ => false) := by
-  cases o with
-  | dataset c a => cases c <;>
-      simp [_node_is_del_mark, pyIsInstance, pyGetItemUnit, pyIsDelMark, bind, Except.bind, pure, Except.pure]
-  | value v => cases v <;>
-      simp [_node_is_del_mark, pyIsInstance, pyGetItemUnit, pyIsDelMark, bind, Except.bind, pure, Except.pure]
-  | _ => simp [_node_is_del_mark, pyIsInstance, pyGetItemUnit, pyIsDelMark, bind, Except.bind, pure, Except.pure]
-
-/-- `_node_is_del_mark` on a raw node is the model's `RKind.isDel` -/
-theorem gen_node_is_del_mark (f : Cont V) (p : Path) (n : RNode V) :
-    _node_is_del_mark (PyObj.ofNode f p n) = .ok n.kind.isDel := by
-  rw [gen_node_is_del_mark_obj]
-  cases h : n.kind <;> simp [PyObj.ofNode, h, RKind.isDel]
-
-/-- on an attribute value: never virtual; deleted iff it is the marker (`none` in the model) -/
-theorem gen_attr_value_preds (v : Option V) :
-    _node_is_virtual (PyObj.value v) = .ok false ∧ _node_is_del_mark (PyObj.value v) = .ok v.isNone := by
-  constructor
-  · rw [gen_node_is_virtual_obj]
-  · rw [gen_node_is_del_mark_obj]; cases v <;> rfl
-
-/-! ## `_guard_open`, `_get_child_raw` -/
-
-theorem gen_guard_open (self : PySelf V) (h : self.files ≠ []) : _guard_open self = .ok () := by
-  cases hf : self.files with
-  | nil => exact absurd hf h
-  | cons a l =>
-    simp [_guard_open, __bool__, hf, pyTruthyList, pyFileOpen, bind, Except.bind, pure, Except.pure]
-
-theorem gen_guard_open_closed (self : PySelf V) (h : self.files = []) : _guard_open self = .error .keyError := by
-  simp [_guard_open, __bool__, h, pyTruthyList, bind, Except.bind, pure, Except.pure]
-
-/-- `_get_child_raw` of a group node: the raw node at `gpath/key` of container `i` -/
-theorem gen_get_child_raw (self : PySelf V) (hattr : self.isAttrs = false) (k : Key) (i : Nat)
-    (f : Cont V) (hf : self.files[i]? = some f) :
-    _get_child_raw self k (i : Int) = pyFileGet f (self.gpath ++ [k]) := by
-  simp only [_get_child_raw, hattr, pyListGet_nat, hf, pyAbsKey, bind, Except.bind, pure, Except.pure]
-  cases pyFileGet f (self.gpath ++ [k]) <;> rfl
-
-/-! ## `_children`: the inner loop -/
-
-theorem gen_children_loop2 (self : PySelf V) (hattr : self.isAttrs = false) (i : Nat)
-    (f : Cont V) (hf : self.files[i]? = some f) (st : St) (k : Key) (n : RNode V)
-    (hn : aget (self.gpath ++ [k]) f = some n) (hd : Dom st) :
-    ∃ st', _children.loop2 self (i : Int) st k = .ok st' ∧ Dom st' ∧
-      slot k st' = stepSlot (slot k st) (i : Int) n.kind.isVirtual ∧
-      ∀ k', k' ≠ k → slot k' st' = slot k' st := by
-  obtain ⟨ch, iv⟩ := st
-  have hraw : _get_child_raw self k (i : Int) = .ok (PyObj.ofNode f (self.gpath ++ [k]) n) := by
-    rw [gen_get_child_raw self hattr k i f hf]; simp [pyFileGet, hn]
-  have hsame := hd.same k
-  cases hc : aget k ch with
-  | none =>
-    have hv : aget k iv = none := by simp_all
-    refine ⟨(aput k (i : Int) ch, aput k n.kind.isVirtual iv), ?_, hd.set_both _ _ _ _ _, ?_, ?_⟩
-    · simp [_children.loop2, pyDictIn, pyDictSet, hc, hraw, gen_node_is_virtual, bind, Except.bind, pure, Except.pure]
-    · rw [slot_set_both]; simp [slot, hc, stepSlot]
-    · intro k' hk'; rw [slot_set_both]; simp [hk']
-  | some j =>
-    have hv : ∃ b, aget k iv = some b := by
-      cases h : aget k iv with
-      | none => simp_all
-      | some b => exact ⟨b, rfl⟩
-    obtain ⟨b, hb⟩ := hv
-    cases b with
-    | false =>
-      refine ⟨(ch, iv), ?_, hd, ?_, fun _ _ => rfl⟩
-      · simp [_children.loop2, pyDictIn, pyDictGet, hc, hb, bind, Except.bind, pure, Except.pure]
-      · simp [slot, hc, hb, stepSlot]
-    | true =>
-      refine ⟨(aput k (min j (i : Int)) ch, aput k n.kind.isVirtual iv), ?_, hd.set_both _ _ _ _ _, ?_, ?_⟩
-      · simp [_children.loop2, pyDictIn, pyDictGet, pyDictSet, hc, hb, hraw, gen_node_is_virtual, bind, Except.bind,
-          pure, Except.pure]
-      · rw [slot_set_both]; simp [slot, hc, hb, stepSlot]
-      · intro k' hk'; rw [slot_set_both]; simp [hk']
-
-/-! ## `_children`: one container -/
-
-/-- the body of the outer loop at container `i` (file `f`): per key one `stepSlot` where the file
-has the child. Needs what every HDF5 file satisfies (`WF.parent`) and that `gpath` is a group
-wherever it occurs. -/
-theorem gen_children_loop1 (self : PySelf V) (hattr : self.isAttrs = false) (i : Nat)
-    (f : Cont V) (hf : self.files[i]? = some f) (hwf : WF f)
-    (hgrp : ∀ n, aget self.gpath f = some n → n.kind.isGroup = true)
-    (st : St) (hd : Dom st) :
-    ∃ st', _children.loop1 self st (i : Int) = .ok st' ∧ Dom st' ∧
-      ∀ k, slot k st' = match aget (self.gpath ++ [k]) f with
-        | none => slot k st
-        | some n => stepSlot (slot k st) (i : Int) n.kind.isVirtual := by
-  obtain ⟨ch, iv⟩ := st
-  cases hg : aget self.gpath f with
-  | none =>
-    refine ⟨(ch, iv), ?_, hd, ?_⟩
-    · simp [_children.loop1, pyListGet_nat, hf, pyFileIn, hg, bind, Except.bind, pure, Except.pure]
-    · intro k
-      cases hk : aget (self.gpath ++ [k]) f with
-      | none => rfl
-      | some n =>
-        obtain ⟨m, hm, _⟩ := hwf.parent self.gpath k (by simp [hk])
-        rw [hg] at hm; cases hm
-  | some gn =>
-    have hgk := hgrp gn hg
-    -- the inner loop
-    have hinner := pyFor_keys (_children.loop2 self (i : Int))
-      (fun k s => match aget (self.gpath ++ [k]) f with
-        | none => s
-        | some n => stepSlot s (i : Int) n.kind.isVirtual)
-      (childKeys f self.gpath) (nodup_childKeys _ _)
-      (by
-        intro st k hk hd
-        rw [mem_childKeys] at hk
-        cases hn : aget (self.gpath ++ [k]) f with
-        | none => simp [hn] at hk
-        | some n =>
-          obtain ⟨st', h1, h2, h3, h4⟩ := gen_children_loop2 self hattr i f hf st k n hn hd
-          exact ⟨st', h1, h2, by simp [h3], h4⟩)
-      (ch, iv) hd
-    obtain ⟨st', h1, h2, h3⟩ := hinner
-    refine ⟨st', ?_, h2, ?_⟩
-    · have hobj : ∃ s a, PyObj.ofNode f self.gpath gn = PyObj.group f self.gpath s a := by
-        cases hk : gn.kind <;> simp_all [PyObj.ofNode, RKind.isGroup]
-      obtain ⟨s, a, hobj⟩ := hobj
-      obtain ⟨c1, i1⟩ := st'
-      simp [_children.loop1, pyListGet_nat, hf, pyFileIn, pyFileGet, hg, hattr, hobj, pyIsInstance, pyKeys, h1,
-        bind, Except.bind, pure, Except.pure]
-    · intro k
-      rw [h3 k]
-      by_cases hk : k ∈ childKeys f self.gpath
-      · simp [hk]
-      · simp only [hk, ↓reduceIte]
-        rw [mem_childKeys] at hk
-        cases hn : aget (self.gpath ++ [k]) f with
-        | none => rfl
-        | some n => simp [hn] at hk
-
-/-! ## `_children`: the dictionary it returns, looked up at one key, is `Overlay.child` -/
-
-/-- `gpath` is a group in every container with index `≥ c` that has it (true for the node `look`
-arrives at, see `grpFrom_of_scan`; the code asserts it, l. 270) -/
-def GrpFrom (r : Rec V) (g : Path) (c : Nat) : Prop :=
-  ∀ (i : Nat) f, c ≤ i → r.reverse[i]? = some f → ∀ n, aget g f = some n → n.kind.isGroup = true
-
-theorem gen_children_self (self : PySelf V) (hattr : self.isAttrs = false) (r : Rec V)
-    (hr : self.files = r.reverse) (hne : r ≠ []) (hwf : ∀ p ∈ r, WF p) (c : Nat) (hc : self.cidx = (c : Int))
-    (hgrp : GrpFrom r self.gpath c) :
-    ∃ d, _children self = .ok d ∧
-      ∀ k, aget k d = (child r (self.gpath ++ [k]) c).map (fun x => (x.1 : Int)) := by
-  have hfiles : self.files ≠ [] := by simp [hr, hne]
-  -- the loop over the containers
-  obtain ⟨st', h1, hd', hs⟩ := pyFor_range self.files (_children.loop1 self) self.gpath c
-    (by
-      intro st i f hf hci hd
-      have hmem : f ∈ r := by
-        have := List.mem_of_getElem? hf
-        simpa [hr] using this
-      exact gen_children_loop1 self hattr i f hf (hwf f hmem) (hgrp i f hci (hr ▸ hf)) st hd)
-    self.files.length (Nat.le_refl _) ([], []) Dom.init
-  have hs' : ∀ k, slot k st' = (scan (self.gpath ++ [k]) c r).map enc := by
-    intro k
-    rw [hs k]
-    have : slot k (([], []) : St) = none := by simp [slot, aget]
-    rw [this, List.take_length, hr, List.reverse_reverse, runSlot_none]
-  obtain ⟨ch, iv⟩ := st'
-  -- the filter on deletion markers
-  let keep : Key × Int → Bool := fun kv =>
-    match scan (self.gpath ++ [kv.1]) c r with
-    | some (_, n) => !n.kind.isDel
-    | none => false
-  have hfilter : ∀ x ∈ pySortedItems ch, _children.filter1 self x = .ok (keep x) := by
-    rintro ⟨k, idx⟩ hx
-    rw [mem_pySortedItems] at hx
-    have hget : aget k ch = some idx := (aget_eq_some_iff_mem ch hd'.nodup k idx).mpr hx
-    have hsl := hs' k
-    rw [← slot_fst k _ hd'] at hget
-    rw [hsl] at hget
-    rcases Option.eq_none_or_eq_some (scan (self.gpath ++ [k]) c r) with hsc | ⟨⟨i, n⟩, hsc⟩
-    · simp [hsc] at hget
-    · simp [hsc, enc] at hget
-      subst hget
-      obtain ⟨_, f, hf, hn⟩ := scan_get _ _ _ _ _ hsc
-      have hraw := gen_get_child_raw self hattr k i f (hr ▸ hf)
-      simp only [_children.filter1, keep, hsc]
-      simp [hattr, hraw, pyFileGet, hn, gen_node_is_del_mark, bind, Except.bind, pure, Except.pure]
-  refine ⟨(pySortedItems ch).filter keep, ?_, ?_⟩
-  · simp only [_children, gen_guard_open self hfiles, bind, Except.bind, pure, Except.pure]
-    rw [hc, h1]
-    simp only
-    rw [pyFilterM_pure _ keep _ hfilter]
-  · intro k
-    rw [aget_filter _ _ (nodup_pySortedItems _ hd'.nodup), aget_pySortedItems _ hd'.nodup]
-    have hsl := hs' k
-    have hfst := slot_fst k _ hd'
-    simp only at hfst
-    rw [← hfst, hsl]
-    simp only [child, keep]
-    rcases Option.eq_none_or_eq_some (scan (self.gpath ++ [k]) c r) with hsc | ⟨⟨i, n⟩, hsc⟩
-    · simp [hsc]
-    · cases hdel : n.kind.isDel <;> simp [hsc, enc, hdel]
-
-/-- **`_children` of the group node `(g, c)` of the record `r`, looked up at a child name `k`, is
-the model's `child r (g ++ [k]) c`** (the creation index; the node itself is the one container
-`i` holds, `scan_get`) -/
-theorem gen_children (r : Rec V) (hne : r ≠ []) (hwf : ∀ p ∈ r, WF p) (g : Path) (c : Nat)
-    (hgrp : GrpFrom r g c) :
-    ∃ d, _children ⟨r.reverse, g, (c : Int), false⟩ = .ok d ∧
-      ∀ k, aget k d = (child r (g ++ [k]) c).map (fun x => (x.1 : Int)) :=
-  gen_children_self ⟨r.reverse, g, (c : Int), false⟩ rfl r rfl hne hwf c rfl hgrp
 
 /-! ## `_get_child`, `_node_seq`, `_find`: successive child lookup is `Overlay.lookFrom / look` -/
 
@@ -341,7 +121,10 @@ theorem gen_node_seq_loop (r : Rec V) (hne : r ≠ []) (hwf : ∀ p ∈ r, WF p)
         match child r (pre ++ [segs[a]]) ci with
         | none => .part pre (segs[a] :: segs.drop (a + 1))
         | some (i, n) => lookFrom r (pre ++ [segs[a]]) i n (segs.drop (a + 1)) := by
-      simp [lookFrom, hgrp]
+      simp only [lookFrom, hgrp, ↓reduceIte]
+      cases child r (pre ++ [segs[a]]) ci with
+      | none => rfl
+      | some z => obtain ⟨i, n⟩ := z; rfl
     rw [hlf]
     have hget := hlook segs[a]
     cases hc : child r (pre ++ [segs[a]]) ci with
@@ -372,12 +155,13 @@ theorem gen_node_seq_loop (r : Rec V) (hne : r ≠ []) (hwf : ∀ p ∈ r, WF p)
       have hchild := gen_get_child ⟨r.reverse, pre, (ci : Int), false⟩ rfl segs[a] i f hf n hn
       simp only at hchild
       have hne1 : ¬ ((i : Int) = -1) := by omega
+      have hne2 : ¬ ((i : Int) < 0) := by omega
       -- the body
       have hbody : ∀ x ret, _node_seq.loop1 segs (nodeOf r.reverse pre ci cur, x, ret) (a : Int) =
           if (!((a : Int) == (segs.length : Int) - 1) && !n.kind.isGroup) = true then .error .valueError
           else .ok (.next (nodeOf r.reverse (pre ++ [segs[a]]) i n, (i : Int), ret ++ [nodeOf r.reverse (pre ++ [segs[a]]) i n])) := by
         intro x ret
-        simp [_node_seq.loop1, hseg, hnode, pyAsInner, hch, pyDictGetD, hget, hne1, hchild, nodeOf_isDataset, bind,
+        simp [_node_seq.loop1, hseg, hnode, pyAsInner, hch, pyDictGetD, hget, hne1, hne2, hchild, nodeOf_isDataset, bind,
           Except.bind, pure, Except.pure]
       by_cases hlast : a + 1 < segs.length
       · -- not the last segment
@@ -428,29 +212,12 @@ theorem gen_find (r : Rec V) (hne : r ≠ []) (hwf : ∀ p ∈ r, WF p) (g : Pat
     have hloop := gen_node_seq_loop r hne hwf (k :: rest) (k :: rest).length 0 rfl (Nat.zero_le _) [] 0 vnode 0
       [nodeOf r.reverse [] 0 (vnode : RNode V)] rfl (fun _ => ⟨rfl, grpFrom_root r hwf⟩)
     simp only [List.drop_zero, List.nil_append] at hloop
-    have hpre : ∀ res, _find ⟨r.reverse, g, c, false⟩ ⟨true, k :: rest⟩ =
-        (match (match pyForRet (pyRange ((0 : Nat) : Int) ((k :: rest).length : Int))
-              (nodeOf r.reverse [] 0 (vnode : RNode V), (0 : Int), [nodeOf r.reverse [] 0 (vnode : RNode V)])
-              (_node_seq.loop1 (k :: rest)) with
-            | .error e => .error e
-            | .ok (.ret v) => .ok v
-            | .ok (.next (_, _, ret)) => .ok ret) with
-          | .error e => .error e
-          | .ok nodes =>
-            match nodes.getLast? with
-            | none => .error .indexError
-            | some nd =>
-              match pyNodeGpath nd with
-              | .error e => .error e
-              | .ok p => if p = k :: rest then (match pyNodeCidx nd with | .error e => .error e | .ok ci => .ok (some ci))
-                  else .ok none) → res = res := fun _ _ => rfl
-    clear hpre
     unfold look
     revert hloop
     cases hl : lookFrom r [] 0 vnode (k :: rest) with
     | found cf nf =>
       rintro ⟨x, ret, hres, hlast⟩
-      simp only [Nat.cast_zero] at hres
+      simp only [Int.natCast_zero, List.length_cons, Int.natCast_add, Int.natCast_one] at hres
       simp [_find, _node_seq, pyPathIsAbs, hroot, pyPathIsRoot, pyPathIsDot, pyPathSegs, hres, pyListGet_neg_one, hlast,
         nodeOf_gpath, nodeOf_cidx, pyAbsPath, bind, Except.bind, pure, Except.pure]
     | part pre' rest' =>
@@ -464,13 +231,100 @@ theorem gen_find (r : Rec V) (hne : r ≠ []) (hwf : ∀ p ∈ r, WF p) (g : Pat
         rw [h3] at h4
         simp at h4 h5
         omega
-      simp only [Nat.cast_zero] at hres
+      simp only [Int.natCast_zero, List.length_cons, Int.natCast_add, Int.natCast_one] at hres
       simp [_find, _node_seq, pyPathIsAbs, hroot, pyPathIsRoot, pyPathIsDot, pyPathSegs, hres, pyListGet_neg_one, hlast,
         nodeOf_gpath, pyAbsPath, hneq, bind, Except.bind, pure, Except.pure]
     | insideValue =>
       intro hres
-      simp only [SeqOutcome, Nat.cast_zero] at hres
+      simp only [SeqOutcome, Int.natCast_zero, List.length_cons, Int.natCast_add, Int.natCast_one] at hres
       simp [_find, _node_seq, pyPathIsAbs, hroot, pyPathIsRoot, pyPathIsDot, pyPathSegs, hres, bind, Except.bind, pure,
         Except.pure]
+
+/-- **`_find` on a relative path, called on the group node `(g, c)`, is the model's `lookFrom`**
+started at that node (`"."` and `""` are not paths of the model) -/
+theorem gen_find_rel (r : Rec V) (hne : r ≠ []) (hwf : ∀ p ∈ r, WF p) (g : Path) (c : Nat) (cur : RNode V)
+    (hcur : cur.kind.isGroup = true) (hfrom : GrpFrom r g c) (k : Key) (rest : Path) (hdot : k :: rest ≠ ["."]) :
+    _find ⟨r.reverse, g, (c : Int), false⟩ ⟨false, k :: rest⟩ =
+      match lookFrom r g c cur (k :: rest) with
+      | .found cf _ => .ok (some (cf : Int))
+      | .part _ _ => .ok none
+      | .insideValue => .error .valueError := by
+  have hself : (PyNode.inner ⟨r.reverse, g, (c : Int), false⟩ : PyNode V) = nodeOf r.reverse g c cur := by
+    simp [nodeOf, hcur]
+  have hloop := gen_node_seq_loop r hne hwf (k :: rest) (k :: rest).length 0 rfl (Nat.zero_le _) g c cur 0
+    [nodeOf r.reverse g c cur] rfl (fun _ => ⟨hcur, hfrom⟩)
+  simp only [List.drop_zero] at hloop
+  have hd : pyPathIsDot ⟨false, k :: rest⟩ = false := by
+    simp only [pyPathIsDot, Bool.not_false, Bool.true_and, beq_eq_false_iff_ne, ne_eq]
+    exact hdot
+  revert hloop
+  cases hl : lookFrom r g c cur (k :: rest) with
+  | found cf nf =>
+    rintro ⟨x, ret, hres, hlast⟩
+    simp only [Int.natCast_zero, List.length_cons, Int.natCast_add, Int.natCast_one] at hres
+    simp [_find, _node_seq, pyPathIsAbs, hself, pyPathIsRoot, hd, pyPathSegs, hres, pyListGet_neg_one, hlast,
+      nodeOf_gpath, nodeOf_cidx, pyAbsPath, bind, Except.bind, pure, Except.pure]
+  | part pre' rest' =>
+    rintro ⟨ret, cp, np, hres, hlast⟩
+    obtain ⟨a, _, _, k', y', h1, h2, h3, _⟩ := lookFrom_part_props r _ _ _ _ _ _ hl
+    have hneq : ¬ (pre' = g ++ k :: rest) := by
+      intro h
+      have h4 : (k :: rest).length = a.length + rest'.length := by rw [h1]; simp
+      have h5 : pre'.length = g.length + a.length := by rw [h2]; simp
+      rw [h] at h5
+      rw [h3] at h4
+      simp at h4 h5
+      omega
+    simp only [Int.natCast_zero, List.length_cons, Int.natCast_add, Int.natCast_one] at hres
+    simp [_find, _node_seq, pyPathIsAbs, hself, pyPathIsRoot, hd, pyPathSegs, hres, pyListGet_neg_one, hlast,
+      nodeOf_gpath, pyAbsPath, hneq, bind, Except.bind, pure, Except.pure]
+  | insideValue =>
+    intro hres
+    simp only [SeqOutcome, Int.natCast_zero, List.length_cons, Int.natCast_add, Int.natCast_one] at hres
+    simp [_find, _node_seq, pyPathIsAbs, hself, pyPathIsRoot, hd, pyPathSegs, hres, bind, Except.bind, pure,
+      Except.pure]
+
+/-! ## under the record invariant of C01 -/
+
+theorem wf_of_inv : ∀ (r : Rec V), Inv r → ∀ p ∈ r, WF p
+  | [], _, p, hp => by cases hp
+  | q :: r, h, p, hp => by
+    obtain ⟨h1, _, h3⟩ := h
+    rcases List.mem_cons.mp hp with rfl | hp'
+    · exact h1
+    · exact wf_of_inv r h3 p hp'
+
+/-- `_find` of the source is `look` of the model on every record the write paths can produce
+(`Inv` is proved preserved by every operation: `MetadorModel.C01.inv_preserved`) -/
+theorem gen_find_inv (r : Rec V) (hne : r ≠ []) (hinv : Inv r) (g : Path) (c : Int) (q : Path) :
+    _find ⟨r.reverse, g, c, false⟩ ⟨true, q⟩ =
+      match look r q with
+      | .found cf _ => .ok (some (cf : Int))
+      | .part _ _ => .ok none
+      | .insideValue => .error .valueError :=
+  gen_find r hne (wf_of_inv r hinv) g c q
+
+/-- what `rec[path]` shows (`viewKind`) in terms of the translated `_find`: a path is visible
+exactly when `_find` returns an index -/
+theorem gen_find_visible (r : Rec V) (hne : r ≠ []) (hinv : Inv r) (q : Path) :
+    (∃ i, _find ⟨r.reverse, [], 0, false⟩ ⟨true, q⟩ = .ok (some i)) ↔ ∃ c n, look r q = .found c n := by
+  rw [gen_find_inv r hne hinv]
+  cases look r q <;> simp
+
+/-! ## non-vacuity: a three-container record with every raw kind -/
+
+deriving instance DecidableEq for Except
+
+private def exRec : Rec Nat :=
+  [ [([], vnode), (["g"], vnode), (["g", "z"], ⟨.data 3, []⟩)],
+    [([], vnode), (["g"], ⟨.sgroup, []⟩), (["g", "y"], ⟨.data 2, []⟩), (["d"], ⟨.del, []⟩)],
+    [([], vnode), (["g"], vnode), (["g", "x"], ⟨.data 1, []⟩), (["d"], ⟨.data 0, []⟩)] ]
+
+example : _find ⟨exRec.reverse, [], 0, false⟩ ⟨true, ["g", "z"]⟩ = .ok (some 2) := by decide
+example : _find ⟨exRec.reverse, [], 0, false⟩ ⟨true, ["g", "y"]⟩ = .ok (some 1) := by decide
+example : _find ⟨exRec.reverse, [], 0, false⟩ ⟨true, ["g", "x"]⟩ = .ok none := by decide
+example : _find ⟨exRec.reverse, [], 0, false⟩ ⟨true, ["d"]⟩ = .ok none := by decide
+example : _find ⟨exRec.reverse, [], 0, false⟩ ⟨true, ["g", "y", "q"]⟩ = .error .valueError := by decide
+example : (_children ⟨exRec.reverse, ["g"], 1, false⟩ : Except PyErr _) = .ok [("y", 1), ("z", 2)] := by decide
 
 end MetadorModel.Bridge.OverlayScan
